@@ -231,7 +231,27 @@ def slice_cases():
         pdt = _pdt()
         return t >> pdt.group_by(t.b) >> pdt.slice_head(3, offset=1) >> pdt.ungroup()
 
-    return [("S.offset", s1), ("S.offset_alias_filter", s2), ("S.offset_summarize", s3), ("S.limit_alias_offset", s4),
+    # an un-arranged offset followed by verbs that merge into the same SELECT (the dialects that need an ORDER BY under OFFSET have to
+    # supply it whatever verb was compiled last)
+    def after(k):
+        def f(t):
+            pdt = _pdt()
+            u = t >> pdt.slice_head(3, offset=2)
+            if k == "select":
+                return u >> pdt.select(t.i, t.s)
+            if k == "rename":
+                return u >> pdt.rename({"i": "i2"})
+            if k == "mutate":
+                return u >> pdt.mutate(z=t.i + 1)
+            if k == "slice":
+                return u >> pdt.slice_head(2) >> pdt.select(t.i)
+            if k == "drop":
+                return u >> pdt.drop(t.i)
+            return u >> pdt.alias(keep_col_refs=True) >> pdt.select(t.i)
+        return f
+
+    more = [("S.offset_then_" + k, after(k)) for k in ("select", "rename", "mutate", "slice", "drop", "alias_select")]
+    return more + [("S.offset", s1), ("S.offset_alias_filter", s2), ("S.offset_summarize", s3), ("S.limit_alias_offset", s4),
             ("S.arranged_offset_twice", s5), ("S.zero", s6), ("S.grouped_offset", s7)]
 
 
